@@ -17,37 +17,37 @@ const (
 
 // reviewed tables (DESIGN.md Appendix A.1): functions whose result is a new object that shares nothing mutable with operands
 var freshReturning = map[string]int{
-	"github.com/RoaringBitmap/roaring.New":          deep,
-	"github.com/RoaringBitmap/roaring.NewBitmap":    deep,
-	"github.com/RoaringBitmap/roaring.BitmapOf":     deep,
-	"github.com/RoaringBitmap/roaring.And":          deep,
-	"github.com/RoaringBitmap/roaring.Or":           deep,
-	"github.com/RoaringBitmap/roaring.Xor":          deep,
-	"github.com/RoaringBitmap/roaring.AndNot":       deep,
-	"github.com/RoaringBitmap/roaring.Flip":         deep,
-	"github.com/RoaringBitmap/roaring.FlipInt":      deep,
-	"github.com/RoaringBitmap/roaring.FastAnd":      deep,
-	"github.com/RoaringBitmap/roaring.FastOr":       deep,
-	"github.com/RoaringBitmap/roaring.HeapOr":       deep,
-	"github.com/RoaringBitmap/roaring.HeapXor":      deep,
-	"github.com/RoaringBitmap/roaring.ParAnd":       deep,
-	"github.com/RoaringBitmap/roaring.ParOr":        deep,
-	"github.com/RoaringBitmap/roaring.ParHeapOr":    deep,
-	"github.com/RoaringBitmap/roaring.AddOffset":    deep,
+	"github.com/RoaringBitmap/roaring.New":             deep,
+	"github.com/RoaringBitmap/roaring.NewBitmap":       deep,
+	"github.com/RoaringBitmap/roaring.BitmapOf":        deep,
+	"github.com/RoaringBitmap/roaring.And":             deep,
+	"github.com/RoaringBitmap/roaring.Or":              deep,
+	"github.com/RoaringBitmap/roaring.Xor":             deep,
+	"github.com/RoaringBitmap/roaring.AndNot":          deep,
+	"github.com/RoaringBitmap/roaring.Flip":            deep,
+	"github.com/RoaringBitmap/roaring.FlipInt":         deep,
+	"github.com/RoaringBitmap/roaring.FastAnd":         deep,
+	"github.com/RoaringBitmap/roaring.FastOr":          deep,
+	"github.com/RoaringBitmap/roaring.HeapOr":          deep,
+	"github.com/RoaringBitmap/roaring.HeapXor":         deep,
+	"github.com/RoaringBitmap/roaring.ParAnd":          deep,
+	"github.com/RoaringBitmap/roaring.ParOr":           deep,
+	"github.com/RoaringBitmap/roaring.ParHeapOr":       deep,
+	"github.com/RoaringBitmap/roaring.AddOffset":       deep,
 	"(*github.com/RoaringBitmap/roaring.Bitmap).Clone": deep,
-	"google.golang.org/protobuf/proto.Clone":        deep,
-	"container/list.New":                            deep,
-	"strings.ToLower":                               deep,
-	"strings.Map":                                   deep,
-	"fmt.Sprintf":                                   deep,
-	"fmt.Sprint":                                    deep,
-	"fmt.Errorf":                                    deep,
-	"errors.New":                                    deep,
-	"bytes.NewReader":                               shallow,
-	"encoding/gob.NewDecoder":                       shallow,
-	"encoding/gob.NewEncoder":                       shallow,
-	"encoding/csv.NewReader":                        shallow,
-	"log.New":                                       shallow,
+	"google.golang.org/protobuf/proto.Clone":           deep,
+	"container/list.New":                               deep,
+	"strings.ToLower":                                  deep,
+	"strings.Map":                                      deep,
+	"fmt.Sprintf":                                      deep,
+	"fmt.Sprint":                                       deep,
+	"fmt.Errorf":                                       deep,
+	"errors.New":                                       deep,
+	"bytes.NewReader":                                  shallow,
+	"encoding/gob.NewDecoder":                          shallow,
+	"encoding/gob.NewEncoder":                          shallow,
+	"encoding/csv.NewReader":                           shallow,
+	"log.New":                                          shallow,
 }
 
 // roaring.Bitmap methods that modify the receiver (Appendix A.1)
